@@ -146,6 +146,10 @@ def gen_spec(rng, idx, quick):
         for _ in range(rng.choice([0, 0, 1, 1, 2])):
             fl = [f for f in DECK_FIELDS if rng.random() < 0.8]
             ops.append(["push", "q.d", [[f, nxt()] for f in fl]])
+            if rng.random() < 0.2:
+                # an element that is not a mapping (the deck accepts anything, also None) sits between the entries: it has
+                # no fields to log, the entries behind it are still logged in this run and the deck is left empty
+                ops.insert(rng.randrange(len(ops) + 1), ["pushraw", "q.d", rng.choice([None, None, 7, [1, 2], "txt", 0])])
         return ops
 
     ticks = []
@@ -211,6 +215,8 @@ def simulate(spec):
             s.queue.append(tuple(op[3]) if s.seqkind == "dict" else op[3])
         elif k == "push":
             s.queue.append(collections.OrderedDict((f, v) for f, v in op[2]))
+        elif k == "pushraw":
+            s.queue.append(("__raw__", op[2]))
 
     for i, tick in enumerate(spec["ticks"]):
         for op in tick["pre"]:
@@ -362,7 +368,9 @@ def check_log(ctx, spec, lg, shares, runs, parsed, witness):
         else:  # deck
             fields = tagfields[0][1]
             exp = ["\t".join([snap["time"]] + [fmt(e[f]) if f in e else "" for f in fields])
-                   for e in snap["drained"][lg["loggees"][0]["share"]]]
+                   for e in snap["drained"][lg["loggees"][0]["share"]] if isinstance(e, dict)]
+            if any(not isinstance(e, dict) for e in snap["drained"][lg["loggees"][0]["share"]]):
+                ctx.hit("deck_runs_with_non_mapping_element")
             if len(obs) != len(exp):
                 key = "deck-rule/element-count"
             elif obs != exp and sorted(obs) == sorted(exp):
@@ -496,3 +504,4 @@ def run(ctx):
     ctx.floor("cases_writer_before_logger", total // 6)
     ctx.floor("cases_logger_period_3P", total // 10)
     ctx.floor("cases_restart", total // 20)
+    ctx.floor("deck_runs_with_non_mapping_element", total // 20)
